@@ -604,6 +604,10 @@ type Exec struct {
 	loopOrdMax  int // highest loop ordinal met while executing the function under verification
 	tickerRefs []string // tickers created so far by the function under verification
 	lockCheck bool
+	stNow     *State    // the state of the statement being executed (for obligations raised while boxing a value)
+	stmtPos   token.Pos
+	boxedN    int
+	examined  map[string]bool // insert-only tables: (table value, key) pairs looked up
 	ownsCheckOn bool
 	safetyKinds map[string]bool
 	boundMake bool
@@ -1437,4 +1441,263 @@ func (eng *Engine) verifyLemma(lm *Lemma, prop string) (*Obligation, []string) {
 	ob := &Obligation{Prop: prop, Func: "lemma", Name: "lemma/" + lm.Name, Kind: "lemma", Text: lm.Text, Finding: lm.Finding}
 	ob.Script = eng.smt.script(st.pc, not(g), true)
 	return ob, ex.specErrs
+}
+
+// confineObligations decides a `confine` directive over the typed AST of the whole working tree: one obligation
+// per field of the struct that no other discipline covers. The obligation holds when every assignment to the field
+// (plain, op-assign, ++/--, address taken) is in an init function - those run before the goroutines of the type
+// exist - or when every access, read or write, is in an init function or in a function of the one goroutine named
+// under `thread:`. A function literal counts as part of the function that contains it, except that a literal
+// started with `go` is neither init nor thread (it is a goroutine of its own).
+func (eng *Engine) confineObligations(cf Confine, prop string) []*Obligation {
+	var st *types.Struct
+	var named *types.Named
+	for _, p := range eng.pkgs {
+		if p.Types == nil {
+			continue
+		}
+		for _, n := range p.Types.Scope().Names() {
+			tn, ok := p.Types.Scope().Lookup(n).(*types.TypeName)
+			if !ok {
+				continue
+			}
+			nm, ok := tn.Type().(*types.Named)
+			if !ok || typeKey(nm) != cf.Type {
+				continue
+			}
+			if s, ok := nm.Underlying().(*types.Struct); ok {
+				st, named = s, nm
+			}
+		}
+	}
+	mk := func(name, text string, ok bool, pos string) *Obligation {
+		ob := &Obligation{Prop: prop, Func: cf.Type, Name: cf.Type + "/confined:" + name, Kind: "confine", Pos: pos, Text: text, Solver: "govc (typed AST)"}
+		if ok {
+			ob.Result = "unsat"
+			ob.Script = "(assert false)\n(check-sat)\n"
+		} else {
+			ob.Result = "access"
+			ob.Script = "(check-sat)\n"
+		}
+		return ob
+	}
+	if st == nil {
+		return []*Obligation{mk("type-exists", "the struct under the confine directive exists; failed: "+cf.Type+" not found", false, "")}
+	}
+	_ = named
+	selfSync := func(t types.Type) bool {
+		s := types.TypeString(t, nil)
+		if strings.HasPrefix(s, "sync.") || strings.HasPrefix(s, "sync/atomic.") || strings.HasPrefix(s, "*sync.") {
+			return true
+		}
+		_, isChan := t.Underlying().(*types.Chan)
+		return isChan
+	}
+	type acc struct {
+		fn    string
+		write bool
+		pos   token.Pos
+		gofn  bool
+	}
+	accs := map[*types.Var][]acc{}
+	fields := map[*types.Var]bool{}
+	for i := 0; i < st.NumFields(); i++ {
+		fields[st.Field(i)] = true
+	}
+	for _, p := range eng.pkgs {
+		if p.TypesInfo == nil {
+			continue
+		}
+		for _, f := range p.Syntax {
+			if strings.HasSuffix(eng.fset.Position(f.Pos()).Filename, "_test.go") {
+				continue
+			}
+			for _, d := range f.Decls {
+				fd, ok := d.(*ast.FuncDecl)
+				if !ok || fd.Body == nil {
+					continue
+				}
+				writes := map[ast.Expr]bool{}
+				goLits := map[*ast.FuncLit]bool{}
+				ast.Inspect(fd.Body, func(n ast.Node) bool {
+					switch x := n.(type) {
+					case *ast.AssignStmt:
+						for _, l := range x.Lhs {
+							writes[ast.Unparen(l)] = true
+						}
+					case *ast.IncDecStmt:
+						writes[ast.Unparen(x.X)] = true
+					case *ast.UnaryExpr:
+						if x.Op == token.AND {
+							writes[ast.Unparen(x.X)] = true
+						}
+					case *ast.GoStmt:
+						if lit, ok := x.Call.Fun.(*ast.FuncLit); ok {
+							goLits[lit] = true
+						}
+					}
+					return true
+				})
+				var walk func(n ast.Node, inGo bool)
+				walk = func(n ast.Node, inGo bool) {
+					ast.Inspect(n, func(m ast.Node) bool {
+						if lit, ok := m.(*ast.FuncLit); ok && m != n {
+							walk(lit.Body, inGo || goLits[lit])
+							return false
+						}
+						sel, ok := m.(*ast.SelectorExpr)
+						if !ok {
+							return true
+						}
+						s := p.TypesInfo.Selections[sel]
+						if s == nil || s.Kind() != types.FieldVal {
+							return true
+						}
+						v, ok := s.Obj().(*types.Var)
+						if !ok || !fields[v] {
+							return true
+						}
+						accs[v] = append(accs[v], acc{fn: fd.Name.Name, write: writes[sel], pos: sel.Pos(), gofn: inGo})
+						return true
+					})
+				}
+				walk(fd.Body, false)
+			}
+		}
+	}
+	var out []*Obligation
+	for i := 0; i < st.NumFields(); i++ {
+		v := st.Field(i)
+		key := cf.Type + "#" + v.Name()
+		if finalKeys[key] || selfSync(v.Type()) {
+			continue
+		}
+		if _, g := eng.cs.Guarded[cf.Type+"."+v.Name()]; g {
+			continue
+		}
+		text := "field " + v.Name() + " of " + cf.Type + " is assigned only by the init functions, or is touched only by them and by the functions of one goroutine"
+		var strayW, strayA []string
+		pos := ""
+		for _, a := range accs[v] {
+			init := cf.Init[a.fn] && !a.gofn
+			thr := cf.Thread[a.fn] && !a.gofn
+			where := a.fn
+			if a.gofn {
+				where += " (in a go func)"
+			}
+			at := eng.fset.Position(a.pos)
+			loc := fmt.Sprintf("%s at %s:%d", where, filepath.Base(at.Filename), at.Line)
+			if a.write && !init {
+				strayW = append(strayW, loc)
+			}
+			if !init && !thr {
+				strayA = append(strayA, loc)
+				if pos == "" {
+					pos = fmt.Sprintf("%s:%d", shortFile(eng, at.Filename), at.Line)
+				}
+			}
+		}
+		ok := len(strayW) == 0 || len(strayA) == 0
+		if !ok {
+			text += "; failed: it is assigned outside the init functions (" + strings.Join(strayW, ", ") + ") and also touched outside both the init functions and the goroutine (" + strings.Join(strayA, ", ") + ") with no lock, atomic or channel in between"
+		}
+		out = append(out, mk(v.Name(), text, ok, pos))
+	}
+	return out
+}
+
+func shortFile(eng *Engine, fn string) string {
+	if r, err := filepath.Rel(eng.repo, fn); err == nil {
+		return r
+	}
+	return fn
+}
+
+// goTrackedObligations decides a `gotracked` directive over the typed AST: one obligation per `go` statement in the
+// methods of the type (function literals included). It holds when the statement just before the `go`, in the same
+// block, is `<x>.<wg>.Add(...)` for one of the listed wait groups - the ones Stop waits for - so no goroutine of the
+// type can outlive Stop unnoticed. A last obligation counts the statements, so a type whose methods start nothing
+// still generates one.
+func (eng *Engine) goTrackedObligations(gt GoTracked, prop string) []*Obligation {
+	mk := func(name, text string, ok bool, pos string) *Obligation {
+		ob := &Obligation{Prop: prop, Func: gt.Type, Name: gt.Type + "/go-tracked:" + name, Kind: "gotracked", Pos: pos, Text: text, Solver: "govc (typed AST)"}
+		if ok {
+			ob.Result = "unsat"
+			ob.Script = "(assert false)\n(check-sat)\n"
+		} else {
+			ob.Result = "untracked"
+			ob.Script = "(check-sat)\n"
+		}
+		return ob
+	}
+	var out []*Obligation
+	found := false
+	var refs []string
+	for ref := range eng.funcs {
+		refs = append(refs, ref)
+	}
+	sort.Strings(refs)
+	for _, ref := range refs {
+		fi := eng.funcs[ref]
+		if fi.Decl == nil || fi.Body == nil || fi.Sig == nil || fi.Sig.Recv() == nil {
+			continue
+		}
+		n := namedOf(fi.Sig.Recv().Type())
+		if n == nil || typeKey(n) != gt.Type {
+			continue
+		}
+		if strings.HasSuffix(eng.fset.Position(fi.Decl.Pos()).Filename, "_test.go") {
+			continue
+		}
+		found = true
+		cnt := 0
+		var visit func(list []ast.Stmt)
+		check := func(list []ast.Stmt, k int, g *ast.GoStmt) {
+			cnt++
+			ok := false
+			if k > 0 {
+				if es, isE := list[k-1].(*ast.ExprStmt); isE {
+					if call, isC := es.X.(*ast.CallExpr); isC {
+						if sel, isS := call.Fun.(*ast.SelectorExpr); isS && sel.Sel.Name == "Add" {
+							if wsel, isW := ast.Unparen(sel.X).(*ast.SelectorExpr); isW && gt.Wait[wsel.Sel.Name] {
+								if tv, has := fi.Pkg.TypesInfo.Types[wsel]; has && strings.HasSuffix(types.TypeString(tv.Type, nil), "sync.WaitGroup") {
+									ok = true
+								}
+							}
+						}
+					}
+				}
+			}
+			at := eng.fset.Position(g.Pos())
+			text := "the goroutine started in " + fi.Decl.Name.Name + " is announced to a wait group Stop waits for in the statement before the go statement"
+			if !ok {
+				text += "; failed: no such WaitGroup.Add precedes the go statement at " + filepath.Base(at.Filename) + fmt.Sprintf(":%d", at.Line) + " (the goroutine can outlive Stop)"
+			}
+			out = append(out, mk(fmt.Sprintf("%s#%d", fi.Decl.Name.Name, cnt), text, ok, fmt.Sprintf("%s:%d", shortFile(eng, at.Filename), at.Line)))
+		}
+		visit = func(list []ast.Stmt) {
+			for k, s := range list {
+				if g, isG := s.(*ast.GoStmt); isG {
+					check(list, k, g)
+				}
+				ast.Inspect(s, func(m ast.Node) bool {
+					switch b := m.(type) {
+					case *ast.BlockStmt:
+						visit(b.List)
+						return false
+					case *ast.CaseClause:
+						visit(b.Body)
+						return false
+					case *ast.CommClause:
+						visit(b.Body)
+						return false
+					}
+					return true
+				})
+			}
+		}
+		visit(fi.Body.List)
+	}
+	out = append(out, mk("type-has-methods", "the type under the gotracked directive exists and has methods", found, ""))
+	return out
 }
